@@ -13,16 +13,19 @@ from vk import models as M
 ID = "C05"
 LEVEL = "exploration"
 RULE = (
-    "Hypothesis draws (a) cohorts of 1..8 samples written as <id>.targetcoverage.cnn (+ optional, possibly header-only, "
-    "<id>.antitargetcoverage.cnn): shared bins over 3..8 autosomes + X (+Y), a common profile + per-sample depth scale + seeded "
-    "noise (sd 0 or up to 0.3), any sex mix, either naming style, male/female reference, sexes given or inferred (>= 40 X bins), "
-    "file order shuffled; exact tier with corrections off, semantic tier with corrections on (flat profile, sex chromosomes <= "
-    "10% of bins, optional FASTA); (b) negative cohorts with one file whose bin is moved, renamed or dropped; (c) flat references "
-    "from generated BED files (+- antitarget BED, +- FASTA over ACGTNacgtn, +- male reference). Oracle: reference_model parses "
-    "the written files itself, centres each sample (targets skip null bins), adds the flat expectation, applies the sex shift, "
-    "stacks under the flat pseudo-sample and takes vk/models.py biweight location / midvariance per bin; consequences (depth-"
-    "only cohorts reproduce the centred profile with spread ~ 0; X at -1/0 and Y at -1) checked without the model; gc/rmask by a "
-    "character loop. Non-trivial = a mixed-sex cohort, or >= 3 samples with noise, or an antitarget block; distinct = distinct JSON."
+    "Hypothesis draws (a) cohorts of 1..8 samples written as <id>.targetcoverage.cnn (+ optional, possibly "
+    "header-only, <id>.antitargetcoverage.cnn): shared bins over 3..8 autosomes + X (+Y), a common profile + "
+    "per-sample depth scale + seeded noise (sd 0 or up to 0.3), any sex mix, either naming style, male/female "
+    "reference, sexes given or inferred (>= 40 X bins), file order shuffled; exact tier with corrections off, "
+    "semantic tier with corrections on (flat profile, sex chromosomes <= 10% of bins, optional FASTA); (b) "
+    "negative cohorts with one file whose bin is moved, renamed or dropped; (c) flat references from generated "
+    "BED files (+- antitarget BED, +- FASTA over ACGTNacgtn, +- male reference). Oracle: reference_model parses "
+    "the written files itself, centres each sample (targets skip null bins), adds the flat expectation, applies "
+    "the sex shift, stacks under the flat pseudo-sample and takes vk/models.py biweight location / midvariance "
+    "per bin; consequences (depth-only cohorts reproduce the centred profile with spread ~ 0; X at -1/0 and Y at "
+    "-1) checked without the model; gc/rmask by a character loop. FASTA-less panels are placed at 3e6, 2.4e8 or "
+    "beyond 2^31 (negatives also 2^32). Non-trivial = a mixed-sex cohort, or >= 3 samples with noise, or an "
+    "antitarget block; distinct = distinct JSON."
 )
 QUICK = {"examples": 240, "shards": 16, "budget_s": 500, "shrink": False}
 THOROUGH = {"examples": 3200, "shards": 16, "budget_s": 3000}
